@@ -250,6 +250,13 @@ func cmdProp(args []string) {
 		scfg.All = true
 		scfg.Par = 4
 	}
+	for _, u := range units {
+		for _, ob := range u.em.obls {
+			if ob.Kind != "vacuity" && matchFinding(findings, cfg.ID, ob.Name) != nil {
+				ob.KnownFail = true
+			}
+		}
+	}
 	solveAll(units, scfg)
 	retryT := 45
 	if *tier == "thorough" {
@@ -446,6 +453,7 @@ func recheckExcept(u *Unit, ob *Obligation, except string, cfg *SolverCfg) bool 
 	}
 	ob2 := *ob
 	ob2.Result = ""
+	ob2.KnownFail = false
 	ob2.Extra = append(append([]string{}, ob.Extra...), fmt.Sprintf("(assert (not %s))", t))
 	solveOne(u, &ob2, cfg, 900000+len(u.em.obls))
 	return ob2.Result == "unsat"
